@@ -17,6 +17,9 @@ thread_local! {
     /// when non-zero: the `Hash::hash` / `Eq::eq` call on an item whose ordinal reaches this value panics
     pub static HKFUSE: Cell<u64> = Cell::new(0);
     pub static HKCOUNT: Cell<u64> = Cell::new(0);
+    /// when non-zero: the `Clone::clone` call on an item or priority whose ordinal reaches this value panics
+    pub static CLFUSE: Cell<u64> = Cell::new(0);
+    pub static CLCOUNT: Cell<u64> = Cell::new(0);
     /// number of live `SItem` + `Pri` values (for leak / double-drop detection)
     pub static LIVE: Cell<i64> = Cell::new(0);
     /// total number of drops observed
@@ -46,6 +49,18 @@ pub fn hk_tick() {
     if HKFUSE.with(|f| f.get()) == n {
         HKFUSE.with(|f| f.set(0));
         panic!("injected: hash/eq panic");
+    }
+}
+
+/// called by every `Clone::clone` of an item or a priority
+pub fn cl_tick() {
+    let n = CLCOUNT.with(|c| {
+        c.set(c.get() + 1);
+        c.get()
+    });
+    if CLFUSE.with(|f| f.get()) == n {
+        CLFUSE.with(|f| f.set(0));
+        panic!("injected: clone panic");
     }
 }
 
@@ -93,6 +108,7 @@ pub fn key_name(key: u64) -> String {
 }
 impl Clone for SItem {
     fn clone(&self) -> Self {
+        cl_tick();
         if TRACK.with(|t| t.get()) {
             LIVE.with(|l| l.set(l.get() + 1));
         }
@@ -173,6 +189,7 @@ impl Pri {
 }
 impl Clone for Pri {
     fn clone(&self) -> Self {
+        cl_tick();
         Pri::new(self.0)
     }
 }
